@@ -1278,9 +1278,25 @@ int32_t jls_core_repair_fsr(struct jls_core_s * self, uint16_t signal_id) {
             break;
         }
         index_head = self->chunk_cur;
+        uint16_t meta_expect = (uint16_t) ((signal_id & 0x0fff) | (((uint16_t) level) << 12));
+        if ((self->chunk_cur.hdr.tag != JLS_TAG_TRACK_FSR_INDEX) || (self->chunk_cur.hdr.chunk_meta != meta_expect)
+                || (self->chunk_cur.hdr.payload_length > (sizeof(struct jls_fsr_index_s) + lvl->index_entries * sizeof(int64_t)))) {
+            JLS_LOGE("repair_fsr signal_id %d: not the index chunk of level %d", (int) signal_id, (int) level);
+            break;  // a damaged link: stop here rather than copy a foreign chunk
+        }
         memcpy(lvl->index, self->buf->start, self->chunk_cur.hdr.payload_length);
 
         if (jls_core_rd_chunk(self)) {  // read summary
+            break;
+        }
+        size_t summary_size_max = sizeof(struct jls_fsr_f32_summary_s)
+                + ((size_t) lvl->summary_entries) * JLS_SUMMARY_FSR_COUNT * sizeof(double);
+        if ((self->chunk_cur.hdr.tag != JLS_TAG_TRACK_FSR_SUMMARY) || (self->chunk_cur.hdr.chunk_meta != meta_expect)
+                || (self->chunk_cur.hdr.payload_length > summary_size_max)
+                || ((lvl->summary->header.entry_size_bits == (JLS_SUMMARY_FSR_COUNT * sizeof(float) * 8))
+                    && (self->chunk_cur.hdr.payload_length > (sizeof(struct jls_fsr_f32_summary_s)
+                        + ((size_t) lvl->summary_entries) * JLS_SUMMARY_FSR_COUNT * sizeof(float))))) {
+            JLS_LOGE("repair_fsr signal_id %d: not the summary chunk of level %d", (int) signal_id, (int) level);
             break;
         }
         track->index_head[level] = index_head;
@@ -1337,6 +1353,13 @@ int32_t jls_core_repair_fsr(struct jls_core_s * self, uint16_t signal_id) {
     while (offset) {
         if (jls_raw_chunk_seek(self->raw, offset) || jls_core_rd_chunk(self)) {
             break;
+        }
+        size_t data_size_max = sizeof(struct jls_payload_header_s)
+                + (((size_t) signal_info->signal_def.samples_per_data) * jls_datatype_parse_size(signal_info->signal_def.data_type)) / 8;
+        if ((self->chunk_cur.hdr.tag != JLS_TAG_TRACK_FSR_DATA) || ((self->chunk_cur.hdr.chunk_meta & 0x0fff) != signal_id)
+                || (self->buf->length > data_size_max) || (self->buf->length < sizeof(struct jls_payload_header_s))) {
+            JLS_LOGE("repair_fsr signal_id %d: not a data chunk of this signal at %" PRIi64, (int) signal_id, offset);
+            break;  // a damaged link: stop here rather than copy a foreign chunk
         }
         memcpy(signal_info->track_fsr->data, self->buf->start, self->buf->length);
         JLS_LOGI("repair_fsr signal_id %d, level %d, offset %" PRIi64 " sample_id %" PRIi64 " to %" PRIi64 " data[0]=%f",
